@@ -146,7 +146,7 @@ fn registry() -> Vec<CheckDef> {
         id: "C09",
         level: "exploration",
         workers: 16,
-        rule: "proptest-generated histories of 1-25 steps (+ a final forced maintenance of every directory) over 4 keys on {plain, sharded(2), stacked over plain} with per-directory capacity {2, 3, never}; steps = virtual clock advance {0, 1ns, 1ms, 0.6s, 1s, 3s} then {set, put, get and read the handle, get without reading it, touch, ensure, forced maintenance (prune to n-1)} with the trigger scripted to fire or not; atime policy {kernel default with the real clock, emulated relatime, noatime, strict} x stored-timestamp granularity {1ns, 1s, 2s} x 4 clock phases; non-trivial = the history has a read-type operation and a later maintenance in which a read mark decided the victim; distinct by hash of the history",
+        rule: "proptest-generated histories of 1-25 steps (+ a final forced maintenance of every directory) over 4 keys on {plain, sharded(2), stacked over plain} with per-directory capacity {2, 3, never}; one written value in five is EMPTY (zero bytes are a legal value; such entries are compared by size and inode); steps = virtual clock advance {0, 1ns, 1ms, 0.6s, 1s, 3s} then {set, put, get and read the handle, get without reading it, touch, ensure, forced maintenance (prune to n-1)} with the trigger scripted to fire or not; atime policy {kernel default with the real clock, emulated relatime, noatime, strict} x stored-timestamp granularity {1ns, 1s, 2s} x 4 clock phases; non-trivial = the history has a read-type operation and a later maintenance in which a read mark decided the victim; distinct by hash of the history",
         run: kvlib::c09::run,
         replay: kvlib::c09::replay,
         assumptions: &["emulated cells: the shim opens every file with O_NOATIME and applies the atime policy itself at the first read through a descriptor (relatime: atime <= mtime => atime := now), truncates every timestamp written or reported to the granularity, and serves CLOCK_REALTIME from a virtual clock", "read mark encoding per the documentation: atime >= mtime", "maintenance inside an operation is judged by DirExplainer on the listing captured at opendir time"],
